@@ -53,20 +53,30 @@ def search(chk, n):
         props = [(rand_complex(rng, (d2, d2), .5), rand_complex(rng, (d2, d2), .5)) for _ in range(N)]
         rho0 = rand_complex(rng, (d, d))
         envs = [dict(mpos=[mpo_transformed(m, p.tin, p.tout) for m in p.mpos], caps=p.caps) for p in pts]
-        want = ref_dynamics(d2, envs, {}, {}, props, rho0.reshape(-1), N)
-        got = impl_states(d, pts, props, rho0, N)
+        # control operations interleaved with the propagators: at most one per step and side (stacking is C18's subject)
+        pre, post, ctrl = {}, {}, None
+        if rng.random() < 0.45:
+            ctrl = oqupy.Control(d)
+            for k in range(N + 1):
+                for side, table in ((False, pre), (True, post)):
+                    if rng.random() < 0.4 and not (side and k == N):
+                        table[k] = rand_complex(rng, (d2, d2), .6)
+                        ctrl.add_single(k, table[k].copy(), post=side)
+        want = ref_dynamics(d2, envs, pre, post, props, rho0.reshape(-1), N)
+        got = impl_states(d, pts, props, rho0, N, ctrl=ctrl)
         chk.search_cases += 1
         scale = max(1e-300, max(np.abs(w).max() for w in want))
         err = max(np.abs(g - w).max() for g, w in zip(got, want)) / scale
         if len(got) != len(want) or err > 1e-9:
-            chk.fail("joint-evolution", f"compute_dynamics deviates from the dense joint evolution (rel {err:.2e})",
-                     {"d": d, "N": N, "nenv": nenv, "seed": chk.seed, "iteration": it})
+            chk.fail("joint-evolution", f"compute_dynamics deviates from the dense joint evolution (rel {err:.2e})"
+                     + (f"; controls: pre at steps {sorted(pre)}, post at steps {sorted(post)}" if ctrl is not None else ""),
+                     {"d": d, "N": N, "nenv": nenv, "seed": chk.seed, "iteration": it, "pre_controls": sorted(pre), "post_controls": sorted(post)})
         # order independence
         if nenv >= 2:
             perm = list(range(nenv))
             rng.shuffle(perm)
             if perm != list(range(nenv)):
-                got2 = impl_states(d, [pts[i] for i in perm], props, rho0, N)
+                got2 = impl_states(d, [pts[i] for i in perm], props, rho0, N, ctrl=ctrl)
                 err2 = max(np.abs(g - w).max() for g, w in zip(got, got2)) / scale
                 chk.search_cases += 1
                 if err2 > 1e-9:
@@ -119,8 +129,10 @@ def run(chk):
         props = [(gint(rng, (d2, d2), -1, 1), gint(rng, (d2, d2), -1, 1)) for _ in range(N)]
         rho0 = gint(rng, (d, d), -2, 2)
         record_all = rng.random() < 0.85
+        # control operations (integer steps; pre- and post-measurement) in 40% of the cases
+        hist = c18.rand_history(rng, d2, 3, list(range(0, N + 1)), 0.1, 0.0, kinds=("int",), lo=-1, hi=1) if rng.random() < 0.4 else []
         try:
-            st = impl_states(d, pts, props, rho0, N, record_all=record_all)
+            st = impl_states(d, pts, props, rho0, N, ctrl=c18.build_control(d, hist) if hist else None, record_all=record_all)
         except Exception as ex:
             chk.disagree("compute_dynamics raised", repr(ex))
             continue
@@ -131,11 +143,11 @@ def run(chk):
         for s in st:
             exp += gflat(s)
         pl = coq_list([f"({mat_lit(a)}, {mat_lit(b)})" for a, b in props])
-        exprs.append(f"dyn_ctl {d2} {coq_list([p.coq(N) for p in pts])} [] {float_lit(0.1)} {float_lit(0.0)} "
+        exprs.append(f"dyn_ctl {d2} {coq_list([p.coq(N) for p in pts])} {c18.hist_lit(hist)} {float_lit(0.1)} {float_lit(0.0)} "
                      f"{pl} {'true' if record_all else 'false'} {N} {vec_lit(rho0.reshape(-1))}")
         expected.append(exp)
         kinds = ["T" if p.trivial else ("r3" if p.mpos[0].ndim == 3 else "r4") + ("t" if p.tin is not None else "") for p in pts]
-        meta.append({"d": d, "N": N, "envs": kinds, "record_all": record_all,
+        meta.append({"d": d, "N": N, "envs": kinds, "record_all": record_all, "controls": [(k, p) for k, p, _ in hist],
                      "bonds": [[m.shape[1] for m in p.mpos] for p in pts]})
         chk.count("envs=" + str(nenv))
         for k in kinds:
